@@ -55,7 +55,7 @@ for d in sorted(glob.glob(os.path.join(ROOT, "seeded", "C*"))):
     for pid, v in sorted(m.get("checks_fired", {}).items()):
         rs = sorted(set(re.findall(r"rule (C\d\d-[A-Z0-9]+)", " ".join(v["reports"]))))
         rules.append(", ".join(rs) if rs else "%s exit %d" % (pid, v["exit"]))
-    w("| %s | %s: %s | %s | %s | %s |" % (sid, ", ".join(files), m.get("summary", ""), m.get("needs_to_manifest", ""), "; ".join(rules) or "MISSED", first.get(sid, "")))
+    w("| %s | %s%s | %s | %s | %s |" % (sid, ", ".join(files), (": " + m["summary"]) if m.get("summary") else "", m.get("needs_to_manifest", ""), "; ".join(rules) or "MISSED", first.get(sid, "")))
 w("")
 p = os.path.join(ROOT, "DESIGN.md")
 s = open(p).read()
